@@ -19,14 +19,15 @@ using namespace QXmpp::Private;
 // stream layer: what happens to the packet is outside C07 (C09); only the reported outcome matters
 static int g_sendCalls;
 static unsigned g_sendMode;                                        // 0: reports success at once, 1: reports an error at once, 2: stays pending
-static std::optional<QXmppPromise<SendResult>> g_pendingSend;
+static QXmppPromise<SendResult> *g_pendingSend;                   // created up-front by the harness (a conditionally engaged optional would
+                                                                  // leave symbolic execution with an unknown promise object)
 QXmppTask<SendResult> StreamAckManager::send(QXmppPacket &&)
 {
     g_sendCalls++;
     QXmppPromise<SendResult> p;
     if (g_sendMode == 0) p.finish(SendSuccess { vp_bool() });
     else if (g_sendMode == 1) p.finish(QXmppError { QString(), SendError::SocketWriteError });
-    else g_pendingSend = p;
+    else return g_pendingSend->task();
     return p.task();
 }
 // packet serialisation is not the subject: packets carry no bytes here
